@@ -407,9 +407,10 @@ class SourceHandler:
                 ignored_packet=packet,
             )
         if packet.directive_type != DirectiveType.NAK_PDU:
-            if (
-                self.states.step == TransactionStep.WAITING_FOR_EOF_ACK
-                and packet.directive_type != DirectiveType.ACK_PDU
+            # A Finished PDU is also accepted: It implies that the EOF PDU was received and that
+            # the ACK (EOF) PDU was lost or is late.
+            if self.states.step == TransactionStep.WAITING_FOR_EOF_ACK and (
+                packet.directive_type not in (DirectiveType.ACK_PDU, DirectiveType.FINISHED_PDU)
             ):
                 raise PduIgnoredForSource(
                     reason=PduIgnoredForSourceReason.NOT_WAITING_FOR_ACK,
@@ -736,6 +737,13 @@ class SourceHandler:
                 f"{self.transmission_mode!r}"
             )
         if self.__handle_retransmission(packet_holder):
+            return
+        if (
+            packet_holder.pdu is not None
+            and packet_holder.pdu_directive_type == DirectiveType.FINISHED_PDU
+        ):
+            # The receiver has the EOF PDU, otherwise it would not have finished the transaction.
+            self.states.step = TransactionStep.WAITING_FOR_FINISHED
             return
         if packet_holder.pdu is None or (
             packet_holder.pdu_type == PduType.FILE_DIRECTIVE
